@@ -169,8 +169,18 @@ fn starts_with_ci(a: &str, prefix: &str) -> bool {
 
 pub fn gen_u32(rng: &mut Rng) -> u32 {
     const B: &[u32] = &[0, 1, 2, 9, 10, 0x7fff_ffff, 0x8000_0000, 0xffff_fffe, 0xffff_ffff];
-    if rng.chance(2, 3) {
+    if rng.chance(1, 2) {
         *rng.pick(B)
+    } else if rng.chance(1, 3) {
+        // every power of two and of ten with its neighbours: where widths, digit counts and
+        // fixed-size buffers change
+        if rng.bool() {
+            let k = rng.range(0, 31);
+            ((1u64 << k) as i64 + rng.range(0, 2) as i64 - 1).clamp(0, u32::MAX as i64) as u32
+        } else {
+            let k = rng.range(0, 9) as u32;
+            (10u64.pow(k) as i64 + rng.range(0, 2) as i64 - 1).clamp(0, u32::MAX as i64) as u32
+        }
     } else {
         let bits = rng.range(1, 32);
         (rng.next_u64() & ((1u64 << bits) - 1)) as u32
@@ -179,8 +189,16 @@ pub fn gen_u32(rng: &mut Rng) -> u32 {
 
 pub fn gen_u64(rng: &mut Rng) -> u64 {
     const B: &[u64] = &[0, 1, 1 << 32, 1 << 63, u64::MAX - 1, u64::MAX];
-    if rng.chance(2, 3) {
+    if rng.chance(1, 2) {
         *rng.pick(B)
+    } else if rng.chance(1, 3) {
+        if rng.bool() {
+            let k = rng.range(0, 63);
+            (1u64 << k).wrapping_add(rng.range(0, 2)).wrapping_sub(1)
+        } else {
+            let k = rng.range(0, 19) as u32;
+            10u64.pow(k).wrapping_add(rng.range(0, 2)).wrapping_sub(1)
+        }
     } else {
         let bits = rng.range(1, 64);
         if bits == 64 {
@@ -270,7 +288,11 @@ fn adversarial(rng: &mut Rng, cfg: &GenCfg, utf8: bool) -> Vec<u8> {
 }
 
 fn ordinary_len(rng: &mut Rng, cfg: &GenCfg) -> usize {
-    if rng.chance(1, 8) {
+    if rng.chance(1, 50) {
+        // lengths at which 8-bit / 16-bit lengths, stack buffers and 'short string' paths change
+        const L: &[usize] = &[30, 31, 63, 64, 65, 127, 128, 255, 256, 257, 999, 1000, 1023, 1024, 1025, 4095, 4096, 4097];
+        *rng.pick(L)
+    } else if rng.chance(1, 8) {
         0
     } else if rng.chance(1, 40) && cfg.max_lit > cfg.max_str {
         rng.range(cfg.max_str as u64, cfg.max_lit as u64) as usize
@@ -492,7 +514,7 @@ fn gen_capability(rng: &mut Rng, cfg: &GenCfg) -> Capability<'static> {
 }
 
 fn gen_capabilities(rng: &mut Rng, cfg: &GenCfg) -> Vec<Capability<'static>> {
-    let n = rng.range(1, 6) as usize;
+    let n = rng.len(1, 6);
     let mut v: Vec<Capability<'static>> = (0..n).map(|_| gen_capability(rng, cfg)).collect();
     if !v.contains(&Capability::Imap4rev1) {
         let at = rng.usize(v.len() + 1);
@@ -524,7 +546,7 @@ fn gen_flag(rng: &mut Rng, cfg: &GenCfg) -> String {
 
 /// FLAGS / PERMANENTFLAGS list; may contain the special element `\*`.
 fn gen_flag_list(rng: &mut Rng, cfg: &GenCfg) -> Vec<Cow<'static, str>> {
-    let n = rng.range(0, 6) as usize;
+    let n = rng.len(0, 6);
     (0..n)
         .map(|_| if rng.chance(1, 8) { Cow::Borrowed("\\*") } else { cow_str(gen_flag(rng, cfg)) })
         .collect()
@@ -533,7 +555,7 @@ fn gen_flag_list(rng: &mut Rng, cfg: &GenCfg) -> Vec<Cow<'static, str>> {
 /// X-GM-LABELS list: each label is flag-shaped or a string that can be sent quoted.
 fn gen_gmail_labels(rng: &mut Rng, cfg: &GenCfg) -> Vec<Cow<'static, str>> {
     const QUOTED: &[&str] = &["Muy Importante", "", " ", "(", ")", "((", "NIL", "nil", "]", "{5}", "a b", "* OK fake"];
-    let n = rng.range(0, 6) as usize;
+    let n = rng.len(0, 6);
     (0..n)
         .map(|_| match rng.below(4) {
             0 | 1 => cow_str(gen_flag(rng, cfg)),
@@ -547,7 +569,7 @@ fn gen_gmail_labels(rng: &mut Rng, cfg: &GenCfg) -> Vec<Cow<'static, str>> {
 // response codes
 
 fn gen_uid_set(rng: &mut Rng) -> Vec<UidSetMember> {
-    let n = rng.range(1, 5) as usize;
+    let n = rng.len(1, 5);
     (0..n)
         .map(|_| {
             if rng.bool() {
@@ -570,7 +592,7 @@ pub fn gen_code(rng: &mut Rng, cfg: &GenCfg, idx: usize) -> Option<ResponseCode<
         "badcharset_none" => ResponseCode::BadCharset(None),
         "badcharset_list" => {
             const CS: &[&str] = &["UTF-8", "US-ASCII", "ISO-8859-1", "utf-8", "NIL", "x]"];
-            let n = rng.range(1, 4) as usize;
+            let n = rng.len(1, 4);
             ResponseCode::BadCharset(Some(
                 (0..n)
                     .map(|_| if rng.bool() { Cow::Borrowed(*rng.pick(CS)) } else { cow_str(gen_utf8(rng, cfg)) })
@@ -625,7 +647,7 @@ fn gen_addresses(rng: &mut Rng, cfg: &GenCfg) -> Option<Vec<Address<'static>>> {
     if rng.chance(1, 3) {
         None
     } else {
-        let n = rng.range(1, 3) as usize;
+        let n = rng.len(1, 3);
         Some((0..n).map(|_| gen_address(rng, cfg)).collect())
     }
 }
@@ -659,7 +681,7 @@ fn gen_body_params(rng: &mut Rng, cfg: &GenCfg) -> BodyParams<'static> {
     }
     const KEYS: &[&str] = &["CHARSET", "charset", "NAME", "BOUNDARY", "FORMAT"];
     const VALS: &[&str] = &["US-ASCII", "utf-8", "flowed", "----=_Part_1", "file name.txt"];
-    let n = rng.range(1, 3) as usize;
+    let n = rng.len(1, 3);
     Some(
         (0..n)
             .map(|_| {
@@ -696,7 +718,7 @@ fn gen_body_extension(rng: &mut Rng, cfg: &GenCfg, depth: u32) -> BodyExtension<
         1 => BodyExtension::Str(None),
         2 => BodyExtension::Str(Some(cow_str(gen_utf8(rng, cfg)))),
         _ => {
-            let n = rng.range(1, 4) as usize;
+            let n = rng.len(1, 4);
             BodyExtension::List((0..n).map(|_| gen_body_extension(rng, cfg, depth + 1)).collect())
         }
     }
@@ -873,7 +895,7 @@ pub fn gen_attribute(rng: &mut Rng, cfg: &GenCfg, idx: usize) -> AttributeValue<
             gen_body_section(rng, cfg, Some(SectionPath::Full(s)))
         }
         "bodysection_part" => {
-            let n = rng.range(1, 4) as usize;
+            let n = rng.len(1, 4);
             let path: Vec<u32> = (0..n).map(|_| if rng.chance(3, 4) { rng.range(1, 9) as u32 } else { gen_u32(rng) }).collect();
             let text = if rng.chance(1, 3) { None } else { Some(gen_section_text(rng, true)) };
             gen_body_section(rng, cfg, Some(SectionPath::Part(path, text)))
@@ -1044,7 +1066,7 @@ fn gen_rights(rng: &mut Rng, may_be_empty: bool) -> Vec<AclRight> {
     if may_be_empty && rng.chance(1, 25) {
         return Vec::new();
     }
-    let n = rng.range(1, 8) as usize;
+    let n = rng.len(1, 8);
     (0..n).map(|_| gen_right(rng)).collect()
 }
 
@@ -1075,7 +1097,7 @@ pub fn gen_response_kind(rng: &mut Rng, cfg: &GenCfg, kind: usize) -> Response<'
         };
     }
     if name == "fetch_mixed" {
-        let n = rng.range(1, 6) as usize;
+        let n = rng.len(1, 6);
         let attrs = (0..n)
             .map(|_| {
                 let idx = rng.usize(ATTR_KINDS.len());
@@ -1105,7 +1127,7 @@ pub fn gen_response_kind(rng: &mut Rng, cfg: &GenCfg, kind: usize) -> Response<'
         }
         "expunge" => Response::Expunge(gen_u32(rng)),
         "vanished" => {
-            let n = rng.range(1, 6) as usize;
+            let n = rng.len(1, 6);
             let uids = (0..n)
                 .map(|_| {
                     // a range value is a set: it is kept normalised (low..=high); the printer may spell
@@ -1125,7 +1147,7 @@ pub fn gen_response_kind(rng: &mut Rng, cfg: &GenCfg, kind: usize) -> Response<'
         "mailbox_recent" => Response::MailboxData(MailboxDatum::Recent(gen_u32(rng))),
         "mailbox_flags" => Response::MailboxData(MailboxDatum::Flags(gen_flag_list(rng, cfg))),
         "mailbox_list" => {
-            let n = rng.range(0, 5) as usize;
+            let n = rng.len(0, 5);
             let mut name_attributes: Vec<NameAttribute<'static>> = Vec::new();
             for _ in 0..n {
                 let a = gen_name_attribute(rng, cfg);
@@ -1164,7 +1186,7 @@ pub fn gen_response_kind(rng: &mut Rng, cfg: &GenCfg, kind: usize) -> Response<'
             })
         }
         "mailbox_metadata_solicited" => {
-            let n = rng.range(1, 4) as usize;
+            let n = rng.len(1, 4);
             Response::MailboxData(MailboxDatum::MetadataSolicited {
                 mailbox: gen_mailbox(rng, cfg),
                 values: (0..n)
@@ -1176,7 +1198,7 @@ pub fn gen_response_kind(rng: &mut Rng, cfg: &GenCfg, kind: usize) -> Response<'
             })
         }
         "mailbox_metadata_unsolicited" => {
-            let n = rng.range(1, 4) as usize;
+            let n = rng.len(1, 4);
             Response::MailboxData(MailboxDatum::MetadataUnsolicited {
                 mailbox: gen_mailbox(rng, cfg),
                 values: (0..n).map(|_| cow_str(gen_entry_name(rng, cfg))).collect(),
@@ -1185,14 +1207,14 @@ pub fn gen_response_kind(rng: &mut Rng, cfg: &GenCfg, kind: usize) -> Response<'
         "mailbox_gmaillabels" => Response::MailboxData(MailboxDatum::GmailLabels(gen_gmail_labels(rng, cfg))),
         "mailbox_gmailmsgid" => Response::MailboxData(MailboxDatum::GmailMsgId(gen_u64(rng))),
         "quota" => {
-            let n = rng.range(0, 4) as usize;
+            let n = rng.len(0, 4);
             Response::Quota(Quota {
                 root_name: if rng.chance(1, 3) { Cow::Borrowed("") } else { cow_str(gen_utf8(rng, cfg)) },
                 resources: (0..n).map(|_| gen_quota_resource(rng, cfg)).collect(),
             })
         }
         "quotaroot" => {
-            let n = rng.range(0, 3) as usize;
+            let n = rng.len(0, 3);
             Response::QuotaRoot(QuotaRoot {
                 mailbox_name: gen_mailbox(rng, cfg),
                 quota_root_names: (0..n)
@@ -1203,7 +1225,7 @@ pub fn gen_response_kind(rng: &mut Rng, cfg: &GenCfg, kind: usize) -> Response<'
         "id_nil" => Response::Id(None),
         "id_map" => {
             const KEYS: &[&str] = &["name", "version", "os", "os-version", "vendor", "support-url", "NIL", ""];
-            let n = rng.range(1, 5) as usize;
+            let n = rng.len(1, 5);
             let mut m: HashMap<Cow<'static, str>, Cow<'static, str>> = HashMap::new();
             let mut tries = 0;
             while m.len() < n && tries < 50 {
@@ -1222,7 +1244,7 @@ pub fn gen_response_kind(rng: &mut Rng, cfg: &GenCfg, kind: usize) -> Response<'
             Response::Id(Some(m))
         }
         "acl" => {
-            let n = rng.range(0, 4) as usize;
+            let n = rng.len(0, 4);
             Response::Acl(Acl {
                 mailbox: gen_mailbox(rng, cfg),
                 acls: (0..n)
@@ -1231,7 +1253,7 @@ pub fn gen_response_kind(rng: &mut Rng, cfg: &GenCfg, kind: usize) -> Response<'
             })
         }
         "listrights" => {
-            let n = rng.range(0, 8) as usize;
+            let n = rng.len(0, 8);
             Response::ListRights(ListRights {
                 mailbox: gen_mailbox(rng, cfg),
                 identifier: gen_identifier(rng, cfg),
